@@ -86,3 +86,12 @@ Theorem C15_compressed_equivalent : forall C pk1 pk2 x y,
   ecdsa_point_ok C pk1 = ecdsa_point_ok C pk2.
 Proof. exact ecdsa_compressed_equivalent. Qed.
 Print Assumptions C15_compressed_equivalent.
+
+(* ---- F20 (known finding, see known_findings.json): the property also asks that a private key whose embedded point does
+   not match be refused when the point is given in compressed form. For the sign bit this is false of the code: for any
+   value of d*G, the private key carrying the right x passes ToPublicKey with y = true and with y = false alike. *)
+Theorem C15_wrong_sign_bit_of_private_key_refuted :
+  forall py, exists pk, ecdsa_to_public (f20_C 5 py) (f20_key true) = Some pk /\ ecdsa_to_public (f20_C 5 py) (f20_key false) = Some pk
+                        /\ has (f20_key true) (-4) = true.
+Proof. exact wrong_sign_bit_of_private_key_accepted_refuted. Qed.
+Print Assumptions C15_wrong_sign_bit_of_private_key_refuted.
